@@ -55,7 +55,7 @@ def run(P, C, tier):
     for bi, t in b.live_calls():
         name = callee_name(t)
         args = b.call_args(bi)
-        uses_conn = any(mir.field_path(a) == "conn" for a in args)
+        uses_conn = any(b.root_type(a).endswith("rusqlite::Connection") and a[0] != "field" for a in args)
         if not uses_conn:
             continue
         if name.endswith("Connection::execute"):
@@ -136,6 +136,59 @@ def run(P, C, tier):
             C.ob("R7", "variant:" + v, v in arms and v in written, b.loc(), "writing variant has an arm that writes through conn")
         else:
             C.ob("R7", "variant:" + v, False, b.loc(), "unclassified WriteMessage variant: decide whether it writes and whether it marks the daily log")
+    # ---- R8 error discipline on the write path
+    C.rule("R8", "no error of the storage layer is dropped on the write path: every rusqlite Result produced in a function reachable from process_batch_write is tested, propagated with `?`, returned, or handed to a call whose own result is")
+    reach = P.reachable_from([b.id])
+    n8 = 0
+    for bid in sorted(reach):
+        fb = P.bodies.get(bid)
+        if fb is None or not fb.file.startswith("src/"):
+            continue
+        per = {}
+        for bi, t in fb.live_calls():
+            ty = fb.locals[t["dest"][0]]
+            if not ty.startswith("std::result::Result<"):
+                continue
+            name = callee_name(t)
+            if "rusqlite" not in name and "rusqlite" not in ty:
+                continue
+            n8 += 1
+            C.saw(fb)
+            ok = mir.result_edges(fb, bi) is not None or t["dest"] == [0]
+            how = "tested or propagated"
+            if not ok:
+                # handed to an adaptor (e.g. OptionalExtension::optional, map_err) whose result is tested
+                for bi2, t2 in fb.live_calls():
+                    if bi2 == bi:
+                        continue
+                    a = fb.call_args(bi2)
+                    if a and any(s[0] == "call" and s[3] == bi for s in mir.subterms(a[0])):
+                        if mir.result_edges(fb, bi2) is not None or t2["dest"] == [0]:
+                            ok = True
+                            how = "through %s" % mir.short(callee_name(t2))
+                # assigned to the return place / returned as the tail expression
+                if not ok:
+                    for bi3 in fb.live_blocks():
+                        for si3, st3 in enumerate(fb.blocks[bi3]["s"]):
+                            if st3["lhs"] == [0]:
+                                t3 = fb.def_term(bi3, si3, st3["rv"], 0, expand_vars=True)
+                                if any(s[0] == "call" and s[3] == bi for s in mir.subterms(t3)):
+                                    ok = True
+                                    how = "returned"
+            if not ok:
+                k = "%s:%s" % (mir.short(fb.id), mir.short(name))
+                per[k] = per.get(k, 0) + 1
+                C.ob("R8", "dropped:%s#%d" % (k, per[k]), False, fb.loc(bi), "the Result of %s is neither tested, propagated nor returned: a failing statement would not abort the batch" % mir.short(name))
+    C.ob("R8", "storage-results-checked", True, b.loc(), "%d rusqlite results on the write path examined" % n8, nontrivial=True)
+    C.floor("R8", "rusqlite results on the write path", n8, 250)
+    # transaction control statements exist only in process_batch_write
+    import sql as _sql
+    for fb in P.bodies.values():
+        if not fb.file.startswith("src/") or fb.id == b.id:
+            continue
+        for bi, cal, text, holes, term in _sql.statements(fb):
+            if text and re.match(r"\s*(BEGIN|COMMIT|ROLLBACK|SAVEPOINT|RELEASE|END)\b", text.strip(), re.I) and not fb.id.endswith("sqlite_database::prepare_connection"):
+                C.ob("R8", "transaction-control-outside-writer:" + mir.short(fb.id), False, fb.loc(bi), "`%s` executed outside process_batch_write: a nested COMMIT/ROLLBACK would end the batch transaction early" % text.strip()[:30])
     # ---- R4 writer thread
     wt = [x for x in P.bodies.values() if x.id.startswith("database::sqlite_database::BufferedDatabaseWriter::start::") and x.calls_to(r"BufferedDatabaseWriter::process_batch_write$")]
     if len(wt) != 1:
